@@ -36,7 +36,7 @@ def analyses():
     d = {"T-PIN": tpin.TPin}
     for modname, names in (("fconv", ["F-CONV"]), ("tref", ["T-REF"]), ("trc", ["T-RC"]),
                            ("tdirty", ["T-DIRTY"]), ("malloc", ["M-ALLOC"]), ("fsort", ["F-SORT"]),
-                           ("tuse", ["T-USE"]), ("midx", ["M-IDX"]), ("fsearch", ["F-SEARCH"]), ("funiq", ["F-UNIQ"]), ("fsplit", ["F-SPLIT"]), ("funlink", ["F-UNLINK"]), ("fleaf", ["F-LEAF"]), ("fstate", ["F-STATE"])):
+                           ("tuse", ["T-USE"]), ("midx", ["M-IDX"]), ("fsearch", ["F-SEARCH"]), ("funiq", ["F-UNIQ"]), ("fsplit", ["F-SPLIT"]), ("funlink", ["F-UNLINK"]), ("fleaf", ["F-LEAF"]), ("fstate", ["F-STATE"]), ("mnull", ["M-NULL"])):
         try:
             mod = __import__("cvc." + modname, fromlist=["x"])
         except ImportError:
